@@ -8,8 +8,8 @@ EXTENDS Data, CSV, IOUtils
 
 OutFile == IOEnv.C13_OUT
 Emit(h) == CSVWrite("%1$s %2$s", <<Len(h), h>>, OutFile)
-EmitTerminal == /\ Terminal => Emit(hist)
-                /\ BuildComplete => Emit(hist \o TailCodes)
+EmitTerminal == /\ Terminal => Emit(HistCodes)
+                /\ BuildComplete => Emit(HistCodes \o TailCodes)
 
 \* ---- leaf shapes ----
 C1 == {"custom"}
